@@ -46,14 +46,46 @@ def graph(F):
     return roots, F.callgraph_from(roots)
 
 
+def norm_place(b, p):
+    """The place an operand really reads: copies / moves of the base local, `&x` followed by `*`, and the selection of a field
+    of a tuple / closure environment / struct built in this body are folded (`(*env.0)` with `env = closure(&len)` is `len`)."""
+    for _ in range(16):
+        proj = list(place_proj(p))
+        ds = [d for d in b.whole_defs(p['l']) if d[0] in b.live]
+        if len(ds) != 1 or ds[0][2] != 'assign':
+            break
+        rv = ds[0][3]['rv']
+        if rv['k'] == 'use' and op_place(rv['op']) is not None:
+            q = op_place(rv['op'])
+            p = {'l': q['l'], 'p': list(place_proj(q)) + proj}
+        elif rv['k'] == 'ref' and proj and proj[0] == '*':
+            q = rv['place']
+            p = {'l': q['l'], 'p': list(place_proj(q)) + proj[1:]}
+        elif rv['k'] == 'agg' and proj and isinstance(proj[0], dict) and 'f' in proj[0]:
+            names = rv.get('names') or [str(i_) for i_ in range(len(rv.get('fields') or []))]
+            f_ = str(proj[0]['f'])
+            idx = names.index(f_) if f_ in names else (proj[0].get('i') if isinstance(proj[0].get('i'), int) and proj[0].get('i') < len(rv.get('fields') or []) else None)
+            if idx is None or op_place(rv['fields'][idx]) is None:
+                break
+            q = op_place(rv['fields'][idx])
+            p = {'l': q['l'], 'p': list(place_proj(q)) + proj[1:]}
+        else:
+            break
+    return p
+
+
 def ub_operand(b, op, depth=0):
     """Upper bound of an unsigned operand by constants / type widths, or None."""
     v = const_val(op)
     if v is not None:
         return v
     p = op_place(op)
-    if p is None or depth > 8 or place_proj(p):
+    if p is None or depth > 8:
         return None
+    if place_proj(p):
+        p = norm_place(b, p)
+    if place_proj(p):
+        return varint_component(b, p)
     ty = b.local_ty(p['l'])
     width = {'u8': 8, 'u16': 16, 'u32': 32, 'u64': 64, 'usize': 64}.get(ty)
     best = (1 << width) - 1 if width else None
@@ -114,12 +146,13 @@ def ub_operand(b, op, depth=0):
             rv = d[3]['rv']
             q_ = op_place(rv['op']) if rv['k'] == 'use' else None
             if q_ is not None and place_proj(q_):
-                # a component of the value decode_variable_length() returned: (value < 2^28, bytes consumed <= 4) - C02.varint
-                flds = [e for e in place_proj(q_) if isinstance(e, dict) and 'f' in e]
-                og_ = Origin(b, transparent=re.compile(TRANSPARENT_CALLS.pattern[:-2] + r'|branch)$')).of_operand({'cp': {'l': q_['l']}})
-                calls_ = {l[1] for l in og_ if l[0] == 'call' and not re.search(r'::branch$', l[1] or '')}
-                if flds and calls_ and all(re.search(r'^utils::decode_variable_length(_cursor)?$', c_ or '') for c_ in calls_) and not any(l[0] not in ('call',) for l in og_):
-                    lim_ = {'0': 0x0FFFFFFF, '1': 4}.get(str(flds[-1]['f']))
+                q_ = norm_place(b, q_)
+                if not place_proj(q_):
+                    u_ = ub_operand(b, {'cp': q_}, depth + 1)
+                    if u_ is not None:
+                        best = u_ if best is None else min(best, u_)
+                else:
+                    lim_ = varint_component(b, q_)
                     if lim_ is not None:
                         best = lim_ if best is None else min(best, lim_)
             if q_ is not None and len(place_proj(q_)) == 1 and isinstance(place_proj(q_)[0], dict) and str(place_proj(q_)[0].get('f')) == '0':
@@ -167,6 +200,16 @@ def ub_operand(b, op, depth=0):
                 w_ = (1 << {'u8': 8, 'u16': 16, 'u32': 32}[m_.group(1)]) - 1
                 best = min(x for x in (best, u_, w_) if x is not None)
     return best
+
+
+def varint_component(b, q_):
+    """A component of the value decode_variable_length() returned: (value < 2^28, bytes consumed <= 4) - C02.varint."""
+    flds = [e for e in place_proj(q_) if isinstance(e, dict) and 'f' in e]
+    og_ = Origin(b, transparent=re.compile(TRANSPARENT_CALLS.pattern[:-2] + r'|branch)$')).of_operand({'cp': {'l': q_['l']}})
+    calls_ = {l[1] for l in og_ if l[0] == 'call' and not re.search(r'::branch$', l[1] or '')}
+    if len(flds) >= 2 and calls_ and all(re.search(r'^utils::decode_variable_length$', c_ or '') for c_ in calls_) and not any(l[0] not in ('call',) for l in og_):
+        return {'0': 0x0FFFFFFF, '1': 4}.get(str(flds[-1]['f']))
+    return None
 
 
 def add_bounded(b, site):
